@@ -54,7 +54,12 @@ def pub_switches(body, dg):
         vs = util.variant_switch(body, dg, b)
         if vs:
             subj, arms, other, l, proj = vs
-            if _mentions(subj, lambda x: x[0] == "call" and x[1].split("::")[-1] in ("poll", "next", "try_recv")): continue
+            # (the tested value itself is the answer of a poll / iterator step -- not a publication whose *arguments* mention one, e.g. the listener id of a fan-out)
+            head_ = strip_casts(subj)
+            while head_[0] in ("field", "variant", "deref") and isinstance(head_[2] if head_[0] != "deref" else head_[1], tuple):
+                head_ = strip_casts(head_[2] if head_[0] != "deref" else head_[1])
+            if head_[0] == "call" and head_[1].split("::")[-1] in ("poll", "next", "try_recv"): continue
+            if head_[0] != "call" and _mentions(subj, lambda x: x[0] == "call" and x[1].split("::")[-1] in ("poll", "next", "try_recv")) and not _mentions(subj, lambda x: x[0] == "call" and x[1].split("::")[-1] in PUB_ROLE): continue
             role, direct = _role_call(subj)
             if role is None: continue
             ty = body.locals[l]["ty"]
@@ -215,6 +220,7 @@ def check(ctx):
         dup = any(c.get("fname") in ("clone", "read", "copy", "copy_nonoverlapping") for (_, c) in body.calls)
         ctx.ob("R01.4", f"{k}|returns-container-answer", ok2 and not dup, f"{body.f['file']}:{body.f['line']}", f"returns `{show(r0)[:120]}`; required: the container's dequeue answer (no duplication, no other source)")
     check_full_sync_reservation(ctx, "R01.6")
+    check_setters_consumed(ctx, "R01.9")
     # ------------------------------------------------------------------ R01.5 ring shape conditions (shared with C02)
     C02 = importlib.import_module("props.C02")
     C02.check(util.PrefixedCtx(ctx, "R01.5"))
@@ -315,3 +321,36 @@ def check_full_sync_reservation(ctx, rule):
                 ctx.ob(rule, f"{f['key']}|reservation-kept-across-the-await", ok, body.loc(y),
                        "between reservation and publication the lock (= the reservation) is never given up, not even across the setter's await")
     ctx.ob(rule, "full-sync|instances", n6 >= 3, "", f"{n6} write / await sites between a full-sync reservation and its publication", nontrivial=False)
+
+
+def check_setters_consumed(ctx, rule):
+    """the payload setter handed to a send / allocation is never silently dropped: on every path of every function that takes a `setter` parameter the closure is
+    invoked, handed on to the callee that will invoke it (or into the closure / coroutine that does), or handed back to the caller.  A path that lets it fall out
+    of scope publishes (or returns) a slot nobody initialised: the stream yields the slot's previous content instead of the payload that was sent."""
+    fx = ctx.fx
+    n = 0
+    for f in fx.fns:
+        if f.get("is_coroutine"): continue
+        body = Body(f)
+        for l in range(1, f["argc"] + 1):
+            nm = body.lname(l) or ""
+            if not nm.startswith("setter"): continue
+            n += 1
+            uses = set()
+            for b in body.reachable:
+                for st in body.stmts(b):
+                    if st[0] != "A": continue
+                    rv = st[2]
+                    ops = [rv[1]] if rv[0] in ("Use", "Cast") and isinstance(rv[1], list) else (rv[2] if rv[0] == "Agg" else [])
+                    for o in ops:
+                        if isinstance(o, list) and o and o[0] in ("m", "c") and o[1]["l"] == l and not o[1]["p"]: uses.add(b)
+                t = body.term(b)
+                if t[0] == "Call":
+                    for o in t[1]["args"]:
+                        if o[0] in ("m", "c") and o[1]["l"] == l and not o[1]["p"]: uses.add(b)
+            # copies of the parameter into temporaries count as uses only if the temporary is used: follow one level
+            esc = [r for r in body.returns if r in ({0} | body.reach_from(0, avoid=frozenset(uses)))] if 0 not in uses else []
+            ctx.ob(rule, f"{f['key']}|{nm}-consumed-on-every-path", not esc, body.loc(esc[0]) if esc else f"{f['file']}:{f['line']}",
+                   "the setter is invoked, forwarded or handed back on every path" if not esc else
+                   "a path returns without invoking, forwarding or handing back the setter: the slot it should have filled is published / returned uninitialised")
+    ctx.ob(rule, "setter-parameters|instances", n >= 30, "", f"{n} functions with a setter parameter", nontrivial=False)
